@@ -388,7 +388,12 @@ func (p *Program) verify(fn *ssa.Function, fc *FuncContract) (x *Exec) {
 			if _, ok := r.(pathEnd); ok {
 				return
 			}
-			panic(r)
+			if os.Getenv("STUNVC_PANIC") != "" {
+				panic(r)
+			}
+			// a construct the symbolic executor has no case for (met on changed code): the function has left the
+			// supported subset - reported as not verified and decided by replay, like every other unsupported construct
+			x.fail("unsupported construct (generator: %v)", r)
 		}
 	}()
 	if fn.Blocks == nil {
@@ -448,6 +453,7 @@ func (p *Program) verify(fn *ssa.Function, fc *FuncContract) (x *Exec) {
 	fr.block = fn.Blocks[0]
 	x.staticRecursion(st)
 	x.staticLockOnce(st)
+	x.staticLoopPolls(st)
 	for _, ob := range x.obs {
 		ob.Static = true // everything generated so far is structural
 	}
@@ -551,7 +557,7 @@ func (x *Exec) runPaths(st *State) {
 			if _, ok := r.(pathEnd); ok {
 				return
 			}
-			panic(r)
+			panic(r) // handled in verify
 		}
 	}()
 	x.run(st)
